@@ -365,6 +365,12 @@ pub fn table(ctx: &Ctx) -> Report {
             cases.push(Case { url: format!("ldap://127.0.0.1:{}", pb), starttls: false, timeout_ms: Some(400), stream: Stream::None, expect: Expect::Err(vec!["Timeout"]), max_ms: Some(6_000), note: "endpoint that neither accepts nor refuses the TCP connection: the connection timeout must fire" });
             cases.push(Case { url: format!("ldaps://127.0.0.1:{}", pb), starttls: false, timeout_ms: Some(400), stream: Stream::None, expect: Expect::Err(vec!["Timeout"]), max_ms: Some(6_000), note: "endpoint that neither accepts nor refuses the TCP connection: the connection timeout must fire" });
         }
+        // a pre-opened stream changes where the bytes go, not what bounds the establishment
+        cases.push(Case { url: format!("ldap://127.0.0.1:{}", dead), starttls: true, timeout_ms: Some(300), stream: Stream::TcpTo(ps), expect: Expect::Err(vec!["Timeout"]), max_ms: Some(6_000), note: "StartTLS over a pre-opened stream to a server that never answers: the connection timeout must fire" });
+        cases.push(Case { url: format!("ldaps://127.0.0.1:{}", dead), starttls: false, timeout_ms: Some(300), stream: Stream::TcpTo(ps), expect: Expect::Err(vec!["Timeout"]), max_ms: Some(6_000), note: "TLS handshake over a pre-opened stream to a server that never answers: the connection timeout must fire" });
+        // ... and the URL's host is not consulted at all
+        cases.push(Case { url: "ldap://directory.corp.invalid:3890".into(), starttls: false, timeout_ms: Some(3000), stream: Stream::TcpTo(pe), expect: Expect::OkVia("tcp4:eph".into()), max_ms: None, note: "pre-opened TCP stream with a URL host that does not resolve" });
+        cases.push(Case { url: "ldap://directory.corp.invalid".into(), starttls: false, timeout_ms: None, stream: Stream::TcpTo(pe), expect: Expect::OkVia("tcp4:eph".into()), max_ms: None, note: "pre-opened TCP stream with a URL host that does not resolve" });
         // the smallest timeouts are timeouts too: zero does not mean "none"
         for t in [0u64, 1] {
             cases.push(Case { url: format!("ldap://127.0.0.1:{}", ps), starttls: true, timeout_ms: Some(t), stream: Stream::None, expect: Expect::Err(vec!["Timeout"]), max_ms: Some(6_000), note: "StartTLS against a server that never answers, zero / 1 ms connection timeout" });
